@@ -379,6 +379,21 @@ def reserved_key_probe(I, ck):
     ck.coverage["chunk_key_subevents_probe (outside the model's domain: key != 'subevents')"] = obs
 
 
+def sum_float_probe(I, ck):
+    """sum_durations goes through floats; outside the exact-sum model.  Records how far the float route is from
+    the exact sum on large magnitudes (centuries plus microseconds)."""
+    worst = (0, None)
+    for big_days in (36_500, 365_000, 3_650_000, 36_500_000):
+        for frac in (1, 3, 333_333, 999_999):
+            durs = [big_days * 86_400 * S + frac, frac, 7 * frac, S // 3]
+            evs = [mk_event(I.Event, BASE, d, {}) for d in durs]
+            dev = abs(us_of_td(I.s.sum_durations(evs)) - sum(durs))
+            if dev > worst[0]:
+                worst = (dev, durs)
+    ck.coverage["sum_durations_large_magnitude_probe (float route, outside the model)"] = {
+        "largest_deviation_us": worst[0], "durations_us": worst[1]}
+
+
 def main(argv=None):
     ck = Check("C16", argv)
     common.setup_impl_env()
@@ -420,6 +435,7 @@ def main(argv=None):
             d["impl_output_view"] = outview
             ck.failing_input("C16:" + bad.split(":")[0], bad, d)
     reserved_key_probe(I, ck)
+    sum_float_probe(I, ck)
     if have_driver:
         model = common.run_driver("C16", [w for _, w in wires])
         for (case, w), mo, io in zip(wires, model, impls):
